@@ -246,6 +246,14 @@ def run(case):
                 fails.append("pixel_bounds invented")
             if not np.array_equal(np.asarray(wr.axis_correlation_matrix), np.asarray(ll.axis_correlation_matrix)):
                 fails.append("correlation matrix changed by resampling")
+            for name in ("world_axis_physical_types", "world_axis_units", "world_axis_names", "pixel_axis_names", "world_axis_object_components"):
+                if list(getattr(wr, name)) != list(getattr(ll, name)):
+                    fails.append(f"{name} changed by resampling: {list(getattr(wr, name))}")
+            if wr.pixel_n_dim != ll.pixel_n_dim or wr.world_n_dim != ll.world_n_dim:
+                fails.append("dimensions changed by resampling")
+            ash = wr.array_shape
+            if ps is not None and (ash is None or [float(x) for x in ash] != [float(x) for x in ps][::-1]):
+                fails.append(f"array_shape {ash} is not pixel_shape {ps} reversed")
         elif kind == "reordered":
             shape = tuple(case["shape"])
             nd = len(shape)
@@ -353,6 +361,15 @@ def run(case):
             want = np.array(want)
             if got.shape != want.shape or not np.array_equal(got, want):
                 fails.append(f"compound forward {got[0].tolist()} != members on mapped axes {want[0].tolist()}")
+            # per-world-axis attributes are the members' concatenated, in member order
+            for name in ("world_axis_physical_types", "world_axis_units", "world_axis_names"):
+                want_attr = [x for m in members for x in getattr(m, name)]
+                if list(getattr(wr, name)) != want_attr:
+                    fails.append(f"{name} {list(getattr(wr, name))} is not the members' concatenated {want_attr}")
+            if wr.world_n_dim != sum(m.world_n_dim for m in members):
+                fails.append(f"world_n_dim {wr.world_n_dim} != sum of the members' {sum(m.world_n_dim for m in members)}")
+            if len(wr.world_axis_object_components) != wr.world_n_dim:
+                fails.append(f"{len(wr.world_axis_object_components)} object components for {wr.world_n_dim} world axes")
             # correlation matrix = OR over mapped columns
             full = np.zeros((wr.world_n_dim, total), dtype=bool)
             iw = ip = 0
